@@ -412,68 +412,55 @@ func (e *Engine) builtin(fr *Frame, st *State, b *ssa.Builtin, args []Val, argVa
 }
 
 // appendSlice models append(s, t...) where t's elements are in the heap.
+// Ghost layout choice: when append reallocates, the new region keeps the slice's offset and is a copy of the old
+// region's cells (cells outside [off, off+len) are unreachable through the new slice, so this is unobservable);
+// the result is then "old region contents with the appended elements stored", in place or in a fresh region.
 func (e *Engine) appendSlice(st *State, s, t SliceV, rt types.Type) Val {
 	a := e.ar
 	el := s.Ty.Underlying().(*types.Slice).Elem()
 	newLen := a.idxAdd(s.Len, t.Len)
 	inplace := a.idxLe(newLen, s.Cap)
-	res := SliceV{Ty: s.Ty, Rid: e.fresh(e.rs(), "app.rid"), Off: e.fresh(a.idxSort(), "app.off"), Len: newLen, Cap: e.fresh(a.idxSort(), "app.cap")}
 	g := st.guard
-	// constant-length source (make([]T,n) or single element) handled generally with quantifier-free stores when len is literal
 	nfresh := st.alloc
 	st.alloc = e.ridNext(st.alloc)
+	res := SliceV{Ty: s.Ty, Rid: e.fresh(e.rs(), "app.rid"), Off: s.Off, Len: newLen, Cap: e.fresh(a.idxSort(), "app.cap")}
 	e.assume(Implies(g, Ite(inplace,
-		And(Eq(res.Rid, s.Rid), Eq(res.Off, s.Off), Eq(res.Cap, s.Cap)),
-		And(Eq(res.Rid, nfresh), Eq(res.Off, a.idxLit(0)), a.idxLe(newLen, res.Cap), a.idxLe(res.Cap, a.idxLit(1<<41))))))
-	k := e.fresh(a.idxSort(), "k")
-	_ = k
+		And(Eq(res.Rid, s.Rid), Eq(res.Cap, s.Cap)),
+		And(Eq(res.Rid, nfresh), a.idxLe(newLen, res.Cap), a.idxLe(res.Cap, a.idxLit(1<<41))))))
 	for _, sl := range e.slots(el) {
 		key := heapKey(el, sl.Path)
 		m := e.heapGet(st, key, sl.Sort)
 		as := SArr(a.idxSort(), sl.Sort)
 		inner := e.fresh(as, "app.data")
-		// inner describes region res.Rid after the append
 		i := Term{"i!q", a.idxSort()}
-		srcOld := Select(Select(m, s.Rid), a.idxAdd(s.Off, a.idxSub(i, res.Off)))
-		srcNew := Select(Select(m, t.Rid), a.idxAdd(t.Off, a.idxSub(a.idxSub(i, res.Off), s.Len)))
-		inOld := And(a.idxLe(res.Off, i), a.idxLt(i, a.idxAdd(res.Off, s.Len)))
-		inNew := And(a.idxLe(a.idxAdd(res.Off, s.Len), i), a.idxLt(i, a.idxAdd(res.Off, newLen)))
-		body := And(
-			Implies(inNew, Eq(Select(inner, i), srcNew)),
-			Implies(And(inOld, Not(inplace)), Eq(Select(inner, i), srcOld)),
-			Implies(And(inplace, Not(inNew)), Eq(Select(inner, i), Select(Select(m, s.Rid), i))),
-		)
+		lo := a.idxAdd(s.Off, s.Len)
+		inNew := And(a.idxLe(lo, i), a.idxLt(i, a.idxAdd(s.Off, newLen)))
+		srcNew := Select(Select(m, t.Rid), a.idxAdd(t.Off, a.idxSub(i, lo)))
+		body := Ite(inNew, Eq(Select(inner, i), srcNew), Eq(Select(inner, i), Select(Select(m, s.Rid), i)))
 		e.assume(Implies(g, Forall([]Term{i}, body, []Term{Select(inner, i)})))
 		st.heap[key] = Store(m, res.Rid, inner)
 	}
 	return res
 }
 
-// appendOne models append(s, v).
+// appendOne models append(s, v) without quantifiers (same ghost layout choice as appendSlice).
 func (e *Engine) appendOne(st *State, s SliceV, v Val) Val {
 	a := e.ar
 	el := s.Ty.Underlying().(*types.Slice).Elem()
 	newLen := a.idxAdd(s.Len, a.idxLit(1))
 	inplace := a.idxLe(newLen, s.Cap)
-	res := SliceV{Ty: s.Ty, Rid: e.fresh(e.rs(), "app.rid"), Off: e.fresh(a.idxSort(), "app.off"), Len: newLen, Cap: e.fresh(a.idxSort(), "app.cap")}
 	g := st.guard
 	nfresh := st.alloc
 	st.alloc = e.ridNext(st.alloc)
+	res := SliceV{Ty: s.Ty, Rid: e.fresh(e.rs(), "app.rid"), Off: s.Off, Len: newLen, Cap: e.fresh(a.idxSort(), "app.cap")}
 	e.assume(Implies(g, Ite(inplace,
-		And(Eq(res.Rid, s.Rid), Eq(res.Off, s.Off), Eq(res.Cap, s.Cap)),
-		And(Eq(res.Rid, nfresh), Eq(res.Off, a.idxLit(0)), a.idxLe(newLen, res.Cap), a.idxLe(res.Cap, a.idxLit(1<<41))))))
+		And(Eq(res.Rid, s.Rid), Eq(res.Cap, s.Cap)),
+		And(Eq(res.Rid, nfresh), a.idxLe(newLen, res.Cap), a.idxLe(res.Cap, a.idxLit(1<<41))))))
 	terms := e.flatten(v)
 	for si, sl := range e.slots(el) {
 		key := heapKey(el, sl.Path)
 		m := e.heapGet(st, key, sl.Sort)
-		as := SArr(a.idxSort(), sl.Sort)
-		// copied prefix when reallocating
-		moved := e.fresh(as, "app.moved")
-		i := Term{"i!q", a.idxSort()}
-		e.assume(Implies(g, Forall([]Term{i}, Implies(And(a.idxLe(a.idxLit(0), i), a.idxLt(i, s.Len)),
-			Eq(Select(moved, i), Select(Select(m, s.Rid), a.idxAdd(s.Off, i)))), []Term{Select(moved, i)})))
-		base := Ite(inplace, Select(m, s.Rid), moved)
-		st.heap[key] = Store(m, res.Rid, Store(base, a.idxAdd(res.Off, s.Len), terms[si]))
+		st.heap[key] = Store(m, res.Rid, Store(Select(m, s.Rid), a.idxAdd(s.Off, s.Len), terms[si]))
 	}
 	return res
 }
